@@ -1,0 +1,49 @@
+//go:build verif
+
+package bech32
+
+// Contracts for the deductive verifier in /verif (comment-only; build tag verif).
+
+//@ func bech32.bech32Polymod
+//@   ensures result == int(bech32.fold(1, values, len(values)))
+//@   modifies nothing
+//@   loop 1 invariant i64(chk) == bech32.fold(1, values, $i)
+//@   loop 2 unroll 5
+
+//@ func bech32.bech32HrpExpand
+//@   ensures len(result) == 2*len(hrp) + 1 && cap(result) == len(result) && fresh(result)
+//@   ensures forall k :: 0 <= k && k < 2*len(hrp) + 1 ==> result[k] == bech32.hx(hrp, len(hrp), k)
+//@   modifies nothing
+//@   loop 1 invariant 0 <= i && i <= len(hrp) && len(v) == i && cap(v) == 2*len(hrp) + 1 && fresh(v)
+//@   loop 1 invariant forall k :: 0 <= k && k < i ==> v[k] == bech32.hx(hrp, len(hrp), k)
+//@   loop 1 decreases len(hrp) - i
+//@   loop 2 invariant 0 <= i && i <= len(hrp) && len(v) == len(hrp) + 1 + i && cap(v) == 2*len(hrp) + 1 && fresh(v)
+//@   loop 2 invariant forall k :: 0 <= k && k < len(hrp) + 1 + i ==> v[k] == bech32.hx(hrp, len(hrp), k)
+//@   loop 2 decreases len(hrp) - i
+
+//@ func bech32.bech32VerifyChecksum
+//@   ensures result == bech32.valid(hrp, len(hrp), data, len(data))
+//@   modifies nothing
+//@   uses b32_fold_is_foldc
+//@   opaque bech32.step
+//@   loop 1 invariant len(integers) == len(data) && fresh(integers)
+//@   loop 1 invariant forall k :: 0 <= k && k < $i ==> integers[k] == int(data[k])
+//@   assert after append#1: len(concat) == 2*len(hrp) + 1 + len(data) && forall k :: 0 <= k && k < len(concat) ==> concat[k] == bech32.at(hrp, len(hrp), data, k)
+
+//@ func bech32.bech32Checksum
+//@   ensures len(result) == 6 && freshornil(result)
+//@   ensures forall j :: 0 <= j && j < 6 ==> result[j] == u8((bech32.cksum(hrp, len(hrp), data, len(data)) >> u64(5 * (5 - j))) & 31)
+//@   modifies nothing
+//@   uses b32_fold_is_foldc
+//@   opaque bech32.step
+//@   reveal bech32.fold, bech32.fold, bech32.fold, bech32.fold, bech32.fold, bech32.fold
+//@   loop 1 invariant len(integers) == len(data) && fresh(integers)
+//@   loop 1 invariant forall k :: 0 <= k && k < $i ==> integers[k] == int(data[k])
+//@   assert after append#1: len(values) == 2*len(hrp) + 1 + len(data) && forall k :: 0 <= k && k < len(values) ==> values[k] == bech32.at(hrp, len(hrp), data, k)
+//@   assert after append#2: len(values) == 2*len(hrp) + 7 + len(data) && forall k :: 0 <= k && k < len(values) - 6 ==> values[k] == bech32.at(hrp, len(hrp), data, k)
+//@   assert after append#2: forall k :: len(values) - 6 <= k && k < len(values) ==> values[k] == 0
+//@   assert after bech32Polymod#1: bech32.fold(1, values, len(values) - 6) == bech32.foldc(1, hrp, len(hrp), data, len(values) - 6)
+//@   loop 2 invariant 0 <= i && i <= 6 && len(res) == i && freshornil(res)
+//@   loop 2 invariant i64(polymod) == bech32.cksum(hrp, len(hrp), data, len(data))
+//@   loop 2 invariant forall j :: 0 <= j && j < i ==> res[j] == u8((i64(polymod) >> u64(5 * (5 - j))) & 31)
+//@   loop 2 decreases 6 - i
